@@ -217,7 +217,7 @@ func TestVerifC19Total(t *testing.T) {
 		maxLen = 6
 	}
 	res.Bounds["max_body_bytes"] = maxLen
-	res.Rule = fmt.Sprintf("(a) every request body of <= %d bytes over the alphabet { } [ ] \" : , a 1 \\ space, sent with POST (and the empty/short ones with GET/PUT/DELETE), (b) every single-subtree mutation (null, \"\", number, negative, float, bool, list, nested object, 1e400, 300-char string) of each of the 8 valid request types, on an empty server and on a server holding one running task; each answer must be exactly one JSON object with code 200/400/500 (405 for other methods) and the handler must not panic; non-trivial = distinct bodies that reach request decoding (valid JSON object)", maxLen)
+	res.Rule = fmt.Sprintf("(a) every request body of <= %d bytes over the alphabet { } [ ] \" : , a 1 \\ space, sent with POST (and the empty/short ones with GET/PUT/DELETE), plus every body made of a prefix that has opened a key or value string ({\", {\"a\":\", {\"request_type\":\", a create's task_id, a list's data key) and a tail of <= %d bytes over the same alphabet (bodies cut inside a string, escapes at the very end), (b) every single-subtree mutation (null, \"\", number, negative, float, bool, list, nested object, 1e400, 300-char string) of each of the 8 valid request types, on an empty server and on a server holding one running task; each answer must be exactly one JSON object with code 200/400/500 (405 for other methods) and the handler must not panic; non-trivial = distinct bodies that reach request decoding (valid JSON object)", maxLen, map[bool]int{false: 4, true: 5}[ev.Thorough()])
 	alphabet := []byte("{}[]\":,a1\\ ")
 	env := newVEnv()
 	defer env.close()
@@ -271,6 +271,26 @@ func TestVerifC19Total(t *testing.T) {
 		}
 	}
 	gen(nil)
+	// bodies cut inside a string: every tail of <= 4 bytes (5 thorough) over the alphabet after a prefix that has opened a
+	// key or a value string (the decoder's string scanners run off the end of such a body - escapes at the very end)
+	tailMax := 4
+	if ev.Thorough() {
+		tailMax = 5
+	}
+	res.Bounds["cut_string_tail_bytes"] = tailMax
+	var genTail func(cur []byte, left int)
+	genTail = func(cur []byte, left int) {
+		check(http.MethodPost, cur, nil, env)
+		if left == 0 {
+			return
+		}
+		for _, c := range alphabet {
+			genTail(append(append([]byte{}, cur...), c), left-1)
+		}
+	}
+	for _, pre := range []string{`{"`, `{"a":"`, `{"request_type":"`, `{"request_type":"create","request_data":{"task_id":"`, `{"request_type":"list","request_data":{"`} {
+		genTail([]byte(pre), tailMax)
+	}
 	// mutations of valid requests: on an empty server and after one accepted create
 	for _, withTask := range []bool{false, true} {
 		e := newVEnv()
